@@ -67,12 +67,12 @@ def depth_cap(av, d=0):
 STD_ENUMS = {
     "std::option::Option": ["None", "Some"],
     "std::result::Result": ["Ok", "Err"],
-    "std::ops::ControlFlow": ["Continue", "Break"],
+    "std::ops::control_flow::ControlFlow": ["Continue", "Break"],
     "std::cmp::Ordering": ["Less", "Equal", "Greater"],
 }
 STD_ARITY = {("std::option::Option", 0): 0, ("std::option::Option", 1): 1,
              ("std::result::Result", 0): 1, ("std::result::Result", 1): 1,
-             ("std::ops::ControlFlow", 0): 1, ("std::ops::ControlFlow", 1): 1}
+             ("std::ops::control_flow::ControlFlow", 0): 1, ("std::ops::control_flow::ControlFlow", 1): 1}
 
 
 def ty_head(ty):
@@ -847,7 +847,7 @@ class Run:
             if v == TOP or v is None:
                 return None
             out = set()
-            CF = "std::ops::ControlFlow"
+            CF = "std::ops::control_flow::ControlFlow"
             for t in v:
                 if t[0] != "a":
                     return None
